@@ -140,6 +140,8 @@ pub struct RawRun {
     pub first_expired: Option<u64>,
     pub cmps_after: Option<u64>,
     pub cmps_at_probe: Option<u64>,
+    /// element comparisons of the whole run
+    pub total_cmps: u64,
     pub asked: Vec<u64>,
     pub none_probes: u64,
     pub clock_dig: u64,
@@ -201,6 +203,7 @@ pub fn raw_exec2(seq: &SeqCase, slices: bool, deadline: bool, sched: Sched) -> R
         first_expired: st.first_expired,
         cmps_after: st.cmps_at_expiry.map(|c| total - c),
         cmps_at_probe: st.cmps_at_expiry,
+        total_cmps: total,
         asked: st.asked.clone(),
         none_probes: similar::verif::none_probes() - np0,
         clock_dig: st.dig.finish(),
@@ -859,6 +862,23 @@ impl C07 {
                                     format!("work budget {}: never expired but stream differs", budget),
                                 );
                             }
+                            // no deadline check came after the moment time
+                            // ran out: whatever was done from then on is
+                            // work after expiry all the same
+                            let bound = 4 * (seq.n() + seq.m() + 4) as u64 + WORK_SLACK;
+                            let after_true_expiry = run.total_cmps.saturating_sub(budget);
+                            if after_true_expiry > bound {
+                                return fail(
+                                    "c07.prompt_between_checks",
+                                    format!(
+                                        "unrelated inputs N={} M={}: time ran out after {} comparisons, {} more were made and no deadline check followed, bound {}",
+                                        seq.n(), seq.m(), budget, after_true_expiry, bound
+                                    ),
+                                );
+                            }
+                            if run.total_cmps > budget {
+                                out.count("work_clock_expiry_after_the_last_check", 1);
+                            }
                             out.faults[F_NEVER] += 1;
                         }
                     }
@@ -1263,10 +1283,18 @@ impl Prop for C07 {
         }
         if entry_pick == 9 {
             // unrelated inputs, plain lookups, ordinary hasher
-            let (lo, hi) = match tier {
-                Tier::Quick => (150, 500),
-                Tier::Thorough => (150, 1500),
+            // (an eighth of them large enough that 1% of an LCS table is more
+            // than the additive slack of the bound)
+            let big = rng.chance(1, 8);
+            let (lo, hi) = match (tier, big) {
+                (Tier::Quick, false) => (150, 500),
+                (Tier::Quick, true) => (1200, 1800),
+                (Tier::Thorough, false) => (150, 1500),
+                (Tier::Thorough, true) => (1500, 3000),
             };
+            if big {
+                seq.alg = Alg::Lcs;
+            }
             let n = rng.range(lo, hi);
             let m = rng.range(lo, hi);
             let (o, nn) = crate::gen::gen_disjoint(rng, n, m);
@@ -1299,7 +1327,15 @@ impl Prop for C07 {
                 gap_ns: rng.below(5_000_000_000),
             },
             9 => Entry::WorkClock {
-                budgets_permille: (0..6).map(|_| rng.below(1000) as u32).collect(),
+                // anywhere, plus one right at the start and one in the last
+                // percent and a half of the work
+                budgets_permille: (0..6)
+                    .map(|i| match i {
+                        4 => rng.below(30) as u32,
+                        5 => 985 + rng.below(15) as u32,
+                        _ => rng.below(1000) as u32,
+                    })
+                    .collect(),
             },
             8 => Entry::RealClock {
                 kinds: {
